@@ -5,7 +5,8 @@
 (*     i.e. the reference encoder and the reference reader of OneD / OneDRT agree with each other (the oracle     *)
 (*     used for the real code is self-consistent), exhaustively over small scopes:                               *)
 (*       Code 39 / Code 93   every string of length 1 and 2 over all 128 ASCII codes, length 3 over Classes       *)
-(*       Code 128            every string up to MaxLen over Classes (digits, upper, lower, control, space, DEL)    *)
+(*       Code 128            every string up to MaxLen over Classes (digits, upper, lower, control, space, DEL),   *)
+(*                           digit runs of length 1..9 before / between / after every class                       *)
 (*                           - every code-set transition, SHIFT, odd/even digit runs                              *)
 (*       ITF                 lengths 2..16 ; Codabar all 16 + 16 guard pairs ; UPC/EAN families, both content forms *)
 (*     plus: Domain is "reject" for every single-character corruption / truncation of the family contents.        *)
@@ -32,6 +33,7 @@ Jobs == {<<"tables", 0, 0>>}
         \cup {<<"b2", s, a>> : s \in {39, 93}, a \in 0..127}            \* all pairs with first byte a
         \cup {<<"c3", s, a>> : s \in {39, 93}, a \in 1..NC}             \* triples over Classes
         \cup {<<"c128", n, a>> : n \in 1..MaxLen, a \in 1..NC}
+        \cup {<<"c128d", n, a>> : n \in 1..9, a \in 1..NC}           \* digit runs of every parity between other characters
         \cup {<<"itf", n, 0>> : n \in 1..8} \cup {<<"cbar", g, 0>> : g \in 0..15}
         \cup {<<"ean", s, x>> : s \in 1..4, x \in 0..9}
 JobSeq == LET RECURSIVE f(_) f(S) == IF S = {} THEN <<>> ELSE LET x == CHOOSE x \in S : TRUE IN <<x>> \o f(S \ {x}) IN f(Jobs)
@@ -45,6 +47,10 @@ JobOK(j) ==
     [] j[1] = "b2" -> \A b \in 0..127 : RoundTrips(SymName(j[2]), <<j[3], b>>)
     [] j[1] = "c3" -> \A c \in Strs(3, j[3]) : RoundTrips(SymName(j[2]), c)
     [] j[1] = "c128" -> \A c \in Strs(j[2], j[3]) : RoundTrips("C128", c)
+    [] j[1] = "c128d" -> LET run == [i \in 1..j[2] |-> 48 + ((i * 7) % 10)] IN
+                         /\ RoundTrips("C128", run) /\ RoundTrips("C128", <<Classes[j[3]]>> \o run)
+                         /\ \A b \in 1..NC : /\ RoundTrips("C128", <<Classes[j[3]]>> \o run \o <<Classes[b]>>)
+                                             /\ RoundTrips("C128", run \o <<Classes[b]>> \o run)
     [] j[1] = "itf" -> \A x \in 0..9 : LET c == [i \in 1..2 * j[2] |-> 48 + ((x + i * i) % 10)] IN
                           /\ RoundTrips("ITF", c)
                           /\ ReadITF(ITFRuns(UnBytes(c), 2)) = Good(c)                  \* 2:1 ratio symbols carry the same digits
